@@ -14,6 +14,7 @@ import LdkModel.Proofs.Package
 import LdkModel.Proofs.OnchainClaims
 import LdkModel.Proofs.ClaimTime
 import LdkModel.Proofs.Packages
+import LdkModel.Proofs.Sweeper
 namespace Ldk.C07
 open Ldk Ldk.Pkg Ldk.Onchain
 
@@ -866,5 +867,166 @@ example : exClaim.wfB = true ∧
       (r.issued.map (fun i => (i.id, i.spends)), r.handler.pending.map (fun e => (e.1, e.2.outpoints)))) = some ([(9, [3])], [(9, [3])]) := by decide
 
 end Packages
+
+/-! ## OutputSweeper (util/sweep.rs): the last leg — SpendableOutputs descriptors are swept exactly once
+
+    Model/Sweeper.lean; every comparison is the definition TRANSLATED by tools/gen_sweep.py (Generated/Sweep.lean):
+    `disconnectUnconfirms` (Listen::blocks_disconnected), `txUnconfirmedUnconfirms` (Confirm::transaction_unconfirmed),
+    `respendFilter` / `initialIsDelayed` (filter_fn of regenerate_and_broadcast_spend_if_necessary), `prunes`. -/
+section Sweeper
+open Ldk.Sweeper Ldk.SweepGen
+
+/-- **sweeper_view_matches_chain** — for EVERY Listen-style history (any interleaving of track / sweep / block connected /
+    blocks disconnected down to any fork point, from a fresh sweeper at any height) that describes a real chain (`WFHist`: an
+    output handed to the sweeper is unspent, no block spends an outpoint an earlier block of the chain spent): in the state reached,
+    a tracked output is held as confirmed (PendingThresholdConfirmations) EXACTLY when the best chain contains a spend of it,
+    and then its confirmation height is the height of a block of the best chain that spends it, not above the tip.
+    In particular a disconnect that KEEPS the block of a spend (fork point = its height) does not un-confirm it. -/
+theorem sweeper_view_matches_chain (best : Nat) (ops : List LOp) (hw : WFHist (LState.fresh best) ops) :
+    let l := (LState.fresh best).run ops
+    ∀ o ∈ l.sw.outputs,
+      o.status.isConfirmed = spentOnChain l.chain o.id ∧
+      ∀ lb t h, o.status = .threshold lb t h → h ≤ l.sw.best ∧ ∃ b ∈ l.chain, b.1 = h ∧ blockSpends b o.id = true := by
+  intro l o ho
+  have hi : Inv l := inv_run ops _ (inv_fresh best) hw
+  have h2 : ∀ lb t h, o.status = .threshold lb t h → h ≤ l.sw.best ∧ ∃ b ∈ l.chain, b.1 = h ∧ blockSpends b o.id = true := by
+    intro lb t h hs
+    obtain ⟨b, hb, hh, hsp⟩ := hi.confAt o ho lb t h hs
+    exact ⟨hh ▸ hi.heights b hb, b, hb, hh, hsp⟩
+  refine ⟨?_, h2⟩
+  cases hc : o.status.isConfirmed
+  · cases hs : spentOnChain l.chain o.id
+    · rfl
+    · rw [hi.spentConf o ho hs] at hc; cases hc
+  · obtain ⟨lb, t, h, hst⟩ := (isConfirmed_iff _).1 hc
+    obtain ⟨_, b, hb, _, hsp⟩ := h2 lb t h hst
+    exact (spentOnChain_iff.2 ⟨b, hb, hsp⟩).symm
+
+-- non-vacuity (the round-5 scenario): sweep of output 1 confirms in block 101, blocks 102-103, reorg with fork point 101: still confirmed at 101
+example : WFHist (LState.fresh 100) [.track 1 none, .sweep, .connect [⟨1, [1]⟩], .connect [], .connect [], .disconnect 101, .connect []] ∧
+    ((LState.fresh 100).run [.track 1 none, .sweep, .connect [⟨1, [1]⟩], .connect [], .connect [], .disconnect 101, .connect []]).sw.outputs
+      = [⟨1, .threshold 100 1 101⟩] := by decide
+
+/-- **sweeper_never_respends_confirmed_spend** — in every state reached by such a history, the transaction that
+    `regenerate_and_broadcast_spend_if_necessary` builds spends NO output whose spend is confirmed on the best chain
+    (it would be consensus-invalid and would take every other batched descriptor down with it). -/
+theorem sweeper_never_respends_confirmed_spend (best : Nat) (ops : List LOp) (hw : WFHist (LState.fresh best) ops) :
+    let l := (LState.fresh best).run ops
+    (∀ id ∈ sweepInputs l.sw, spentOnChain l.chain id = false) ∧
+    (∀ tx, (sweep l.sw).2 = some tx → ∀ id ∈ tx.inputs, spentOnChain l.chain id = false) := by
+  intro l
+  have hi : Inv l := inv_run ops _ (inv_fresh best) hw
+  have h1 : ∀ id ∈ sweepInputs l.sw, spentOnChain l.chain id = false := by
+    intro id hid
+    obtain ⟨o, ho, rfl, hr⟩ := mem_sweepInputs hid
+    cases hs : spentOnChain l.chain o.id
+    · rfl
+    · have := hi.spentConf o ho hs
+      rw [respend_not_confirmed hr] at this; cases this
+  exact ⟨h1, fun tx htx id hid => h1 id (sweep_tx_inputs htx ▸ hid)⟩
+
+-- non-vacuity: after the reorg above a second output matures; the sweep spends output 2 only
+example : (sweep ((LState.fresh 100).run [.track 1 none, .sweep, .connect [⟨1, [1]⟩], .connect [], .connect [], .disconnect 101, .connect [], .track 2 none]).sw).2
+    = some ⟨2, [2]⟩ := by decide
+
+/-- **disconnect_unconfirms_exactly_above_fork** — one call of Listen::blocks_disconnected on ANY sweeper state: an output
+    confirmed at height h keeps its status when h ≤ fork point (its block stays), goes back to PendingFirstConfirmation with the
+    same transaction when h > fork point, and outputs that were not confirmed are untouched; the best block becomes the fork point. -/
+theorem disconnect_unconfirms_exactly_above_fork (s : State) (fork : Nat) :
+    (blocksDisconnected s fork).best = fork ∧
+    (blocksDisconnected s fork).outputs = s.outputs.map (fun o =>
+      match o.status with
+      | .threshold lb t h => if h ≤ fork then o else { o with status := .firstConf lb t }
+      | _ => o) := by
+  refine ⟨rfl, ?_⟩
+  unfold blocksDisconnected
+  apply List.map_congr_left
+  intro o _
+  cases hs : o.status with
+  | initial d => simp [Status.confirmationHeight, disconnectUnconfirms_none]
+  | firstConf lb t => simp [Status.confirmationHeight, disconnectUnconfirms_none]
+  | threshold lb t h =>
+    simp only [Status.confirmationHeight, disconnectUnconfirms_some]
+    by_cases hle : h ≤ fork
+    · simp [hle, Nat.not_lt.2 hle]
+    · simp [hle, Nat.lt_of_not_le hle, Status.unconfirmed]
+
+example : (blocksDisconnected { best := 103, outputs := [⟨1, .threshold 100 1 101⟩, ⟨2, .threshold 100 2 102⟩, ⟨3, .firstConf 100 3⟩], nextTx := 4 } 101).outputs
+    = [⟨1, .threshold 100 1 101⟩, ⟨2, .firstConf 100 2⟩, ⟨3, .firstConf 100 3⟩] := by decide
+
+/-- **transaction_unconfirmed_from_its_height** — Confirm::transaction_unconfirmed on ANY state: if the transaction is the
+    latest spend of a tracked output confirmed at height u (the first such output decides), exactly the outputs confirmed at heights
+    ≥ u go back to PendingFirstConfirmation (every block from u up is gone), the ones confirmed below u keep their status; an unknown
+    or unconfirmed transaction changes nothing. -/
+theorem transaction_unconfirmed_from_its_height (s : State) (txid : Nat) :
+    transactionUnconfirmed s txid =
+      match (s.outputs.find? fun o => o.status.latestTx == some txid).bind (·.status.confirmationHeight) with
+      | some u => { s with outputs := s.outputs.map (fun o =>
+          match o.status with
+          | .threshold lb t h => if u ≤ h then { o with status := .firstConf lb t } else o
+          | _ => o) }
+      | none => s := by
+  unfold transactionUnconfirmed
+  cases (s.outputs.find? fun o => o.status.latestTx == some txid).bind (·.status.confirmationHeight) with
+  | none => rfl
+  | some u =>
+    simp only
+    congr 1
+    apply List.map_congr_left
+    intro o _
+    cases hs : o.status with
+    | initial d => simp [Status.confirmationHeight, txUnconfirmedUnconfirms_none]
+    | firstConf lb t => simp [Status.confirmationHeight, txUnconfirmedUnconfirms_none]
+    | threshold lb t h =>
+      simp only [Status.confirmationHeight, txUnconfirmedUnconfirms_some]
+      by_cases hle : u ≤ h
+      · simp [hle, Status.unconfirmed]
+      · simp [hle]
+
+example : (transactionUnconfirmed { best := 103, outputs := [⟨1, .threshold 100 1 101⟩, ⟨2, .threshold 100 2 102⟩, ⟨3, .threshold 100 3 103⟩], nextTx := 4 } 2).outputs
+    = [⟨1, .threshold 100 1 101⟩, ⟨2, .firstConf 100 2⟩, ⟨3, .firstConf 100 3⟩] := by decide
+
+/-- **sweeper_respends_exactly_open_outputs** — the translated `filter_fn`: an output goes into the next sweep exactly when it is
+    not confirmed, its delay (if any) has been reached, and it was not broadcast at the current height or above already. -/
+theorem sweeper_respends_exactly_open_outputs (o : Out) (cur : Nat) :
+    respend o cur = true ↔
+      match o.status with
+      | .initial none => True
+      | .initial (some d) => d ≤ cur
+      | .firstConf lb _ => lb < cur
+      | .threshold _ _ _ => False := by
+  unfold respend
+  cases hs : o.status with
+  | initial d =>
+    cases d with
+    | none => simp [Status.isConfirmed, Status.isDelayed, Status.latestBroadcastHeight, initialIsDelayed, respendFilter, optGe]
+    | some d => simp [Status.isConfirmed, Status.isDelayed, Status.latestBroadcastHeight, initialIsDelayed, respendFilter, optGe]
+  | firstConf lb t => simp [Status.isConfirmed, Status.isDelayed, Status.latestBroadcastHeight, respendFilter, optGe]
+  | threshold lb t h => simp [Status.isConfirmed, respendFilter]
+
+example : respend ⟨1, .firstConf 100 1⟩ 100 = false ∧ respend ⟨1, .firstConf 100 1⟩ 101 = true ∧ respend ⟨1, .initial (some 101)⟩ 100 = false := by decide
+
+/-- **sweeper_prunes_exactly_at_depth** — Confirm::best_block_updated / the tail of filtered_block_connected: an output stays
+    tracked exactly until the tip reaches confirmation height + PRUNE_DELAY_BLOCKS - 1 (= ARCHIVAL_DELAY_BLOCKS + ANTI_REORG_DELAY - 1
+    blocks on top); unconfirmed outputs are never pruned. -/
+theorem sweeper_prunes_exactly_at_depth (s : State) (h : Nat) (o : Out) :
+    o ∈ (bestBlockUpdated s h).outputs ↔
+      o ∈ s.outputs ∧ ∀ c, o.status.confirmationHeight = some c → h < c + 4037 := by
+  unfold bestBlockUpdated
+  simp only [List.mem_filter]
+  refine and_congr_right fun _ => ?_
+  unfold keepOut
+  cases hc : o.status.confirmationHeight with
+  | none => simp
+  | some c =>
+    simp only [prunes, PRUNE_DELAY_BLOCKS, ARCHIVAL_DELAY_BLOCKS, ANTI_REORG_DELAY]
+    constructor
+    · intro hk c' hc'; cases hc'; simp at hk; omega
+    · intro hk; have := hk c rfl; simp; omega
+
+example : (bestBlockUpdated { best := 0, outputs := [⟨1, .threshold 100 1 101⟩], nextTx := 2 } 4137).outputs = [⟨1, .threshold 100 1 101⟩] ∧
+    (bestBlockUpdated { best := 0, outputs := [⟨1, .threshold 100 1 101⟩], nextTx := 2 } 4138).outputs = [] := by decide
+
+end Sweeper
 
 end Ldk.C07
